@@ -22,7 +22,10 @@ def rand_case(rng):
         n = rng.randint(1, 8)
         text = rng.random() < 0.4
         a = [enc(('t%d' % i) if text else 7 * i) for i in range(1, n + 1)]
-        return {'f': 'INDEX', 'args': [{'t': 'arr', 'a': a}, enc(rng.randint(-10, n + 10))]}
+        one = enc(rng.randint(-10, n + 10))
+        other = rng.choice([{'t': 'blank'}, enc(0), enc(1), enc(1), enc(2), enc(rng.randint(-2, n + 2))])
+        return {'f': 'INDEX', 'args': rng.choice([[{'t': 'arr', 'a': a}, one], [{'t': 'arr', 'a': a}, one, other],
+                                                  [{'t': 'arr', 'a': a}, other, one]])}
     if k in (2, 3):
         nr, nc = rng.randint(1, 8), rng.randint(1, 8)
         text = rng.random() < 0.3
@@ -58,14 +61,18 @@ def main(tier, replay=None):
     consts = {'Builtins': bconst}
     run.rule = ('one observation = one CHOOSE / INDEX / MATCH call with its array written as a literal, bound to a variable or '
                 'supplied as a range value; distinct by formula and bindings; non-trivial = all')
-    run.assumptions = ['INDEX on a one-dimensional array is exercised with a single index (the statement does not fix the '
-                       'orientation); index 0 there may give an error or the whole array',
+    run.assumptions = ['INDEX on a one-dimensional array: by position with one index; with two indices it may be read as a column '
+                       'or as a row (the statement does not fix the orientation), the answer being that element, the whole array '
+                       'for position 0, or an error - never anything else',
                        'an error for a position outside the array may be any of the nine codes',
                        'MATCH 1/-1 on sorted arrays with duplicates may return any position holding the right item',
                        'wildcard patterns contain no [ or ]']
     if replay:
         c = json.load(open(replay))['case']
-        allobs = fncases.observe(lib, [c['in']], ranges=True)
+        if c['in'].get('after_mutation'):
+            allobs = fncases.observe_after_mutation(lib, [c['in']])
+        else:
+            allobs = fncases.observe(lib, [c['in']], ranges=True)
         obs = [o for o in allobs if o['formula'] == c['in']['formula']][:1] or allobs[:1]
         obs[0]['id'] = 1
         v = core.validate_obs(run, 'Trace_Eval', obs, 'replay', consts)
@@ -80,6 +87,10 @@ def main(tier, replay=None):
     rng = random.Random(run.seed)
     cases += [rand_case(rng) for _ in range(4000 if quick else 100000)]
     obs = fncases.observe(lib, cases, ranges=True)
+    # the host edits its table in place between two evaluations of the same call
+    mo = fncases.observe_after_mutation(lib, [c for c in cases if c['f'] in ('INDEX', 'MATCH')][:1500 if quick else 40000])
+    run.extra['evaluations_after_in_place_edit'] = len(mo)
+    obs += mo
     so = suite.observations({'CHOOSE','INDEX','MATCH'}, len(obs) + 1)   # the same functions as the repository's own tests call them
     run.extra['calls_from_repository_tests'] = len(so)
     obs += so
